@@ -378,7 +378,7 @@ pub fn run(tier: &str, seed: u64) -> i32 {
     let thorough = tier == "thorough";
     let budget = Budget {
         max_depth: 4,
-        wall: Duration::from_secs(if thorough { 600 } else { 40 }),
+        wall: Duration::from_secs(if thorough { 600 } else { 150 }),
         max_states: 10_000_000,
     };
     // only complete assignments (depth 4) differ from their prefixes by more `Absent`s; all are checked
@@ -387,7 +387,7 @@ pub fn run(tier: &str, seed: u64) -> i32 {
     report.add(sweep(
         "D-similar(all ordered selections of <= 4 registry paths over last identifiers {S, T, a, S2} x 9 queries)",
         &cases,
-        Duration::from_secs(if thorough { 300 } else { 30 }),
+        Duration::from_secs(if thorough { 300 } else { 150 }),
         |c| serde_json::to_value(c).unwrap(),
         check_sim,
     ));
